@@ -101,7 +101,7 @@ class SharedBufferAPI : public BufferAPI<ArrayT>
      { return true; }
 
     Py_ssize_t numBytes() const override
-     { return _orig.len() * atomicSize() * _orig.stride(); }
+     { return _orig.len() * atomicSize() * FixedArrayWidth<typename ArrayT::BaseType>::value * _orig.stride(); }
 
     bool readOnly() const override
      { return !_orig.writable(); }
@@ -141,7 +141,7 @@ class CopyBufferAPI : public BufferAPI<ArrayT>
      { return false; }
 
     Py_ssize_t numBytes() const override
-     { return _copy.len() * atomicSize() * _copy.stride(); }
+     { return _copy.len() * atomicSize() * FixedArrayWidth<typename ArrayT::BaseType>::value * _copy.stride(); }
 
     bool readOnly() const override
      { return false; }
